@@ -31,7 +31,7 @@ PROPS = {
                 suites=[S('list-ds', (150, 40), (4000, 60)), S('db-list', (50, 150), (1000, 200))],
                 assumptions=['lists shorter than 2^62 elements']),
     'C06': dict(modules=['NutsProofs.Props.C06'], suites=[S('db-set', (60, 150), (1500, 200))]),
-    'C07': dict(modules=['NutsProofs.Props.C07'], suites=[S('db-zset', (60, 150), (1500, 200))]),
+    'C07': dict(modules=['NutsProofs.Props.C07'], suites=[S('db-zset', (60, 150), (1500, 200)), S('zset-ds', (60, 300), (1500, 500))]),
     'C08': dict(modules=['NutsProofs.Props.C08'], suites=[S('db-mixed', (60, 200), (1500, 250))]),
     'C09': dict(modules=['NutsProofs.Props.C09'], suites=[S('db-crash', (40, 120), (800, 200)), S('db-kv', (30, 150), (500, 200))]),
     'C10': dict(modules=['NutsProofs.Props.C10'], suites=[S('db-crash', (50, 120), (1200, 200))]),
